@@ -1,3 +1,4 @@
+import NettyVerif.Model.Carrier
 import NettyVerif.Proofs.Chan
 /-! # C18 — Back-pressure: non-blocking mode never blocks; blocking mode is cancellable -/
 namespace NettyVerif.C18
@@ -73,8 +74,23 @@ theorem C18_abort_transmits_nothing (s s' : St α) (a : Act α) (ha : a = .abort
     (h : step s a = some s') : s'.accepted = s.accepted ∧ s'.wire = s.wire ∧ s'.q = s.q := by
   rcases ha with rfl | rfl <;> simp only [step] at h <;> split at h <;> simp at h <;> subst h <;> simp
 
+/-- **streaming entry point**: ReadFrom on a non-blocking channel with `free` free queue slots and a
+    stalled sender queues exactly the chunks that fit, in order, and reports the queue-full error iff
+    a chunk did not fit — it never waits for the sender (the function is total and looks at nothing
+    but the chunk count and the free slots) -/
+theorem C18_readfrom_nonblocking (chunks : List NettyVerif.Carrier.Bytes) (free : Nat) :
+    let r := NettyVerif.Carrier.readFromNoSpace chunks free
+    r.1 = chunks.take free ∧ r.1.length ≤ free ∧ (r.2.2 = true ↔ free < chunks.length) ∧
+    (r.2.2 = false → r.2.1 = chunks.flatten.length) := by
+  unfold NettyVerif.Carrier.readFromNoSpace
+  by_cases h : chunks.length ≤ free
+  · simp [h, List.take_of_length_le h]
+  · simp [h]
+    omega
+
 end NettyVerif.C18
 
+#print axioms NettyVerif.C18.C18_readfrom_nonblocking
 #print axioms NettyVerif.C18.C18_bound
 #print axioms NettyVerif.C18.C18_nospace_only_when_full
 #print axioms NettyVerif.C18.C18_nonblocking_never_parks
